@@ -78,6 +78,10 @@ func MergeNodes(left, right Node, document *Document) (Node, error) {
 
 	r := DeepCopy(left, document)
 
+	// If we are merging families the husband, wife and child nodes that are
+	// copied from right need to know the family they belong to.
+	family, _ := r.(*FamilyNode)
+
 	for _, child := range right.Nodes() {
 		for _, n := range r.Nodes() {
 			if n.Equals(child) {
@@ -89,7 +93,7 @@ func MergeNodes(left, right Node, document *Document) (Node, error) {
 		}
 
 		// The result must not share nodes with right.
-		r.AddNode(DeepCopy(child, document))
+		r.AddNode(deepCopyInFamily(child, document, family))
 	next:
 	}
 
